@@ -186,3 +186,4 @@ class index_of_match:
     def claim(x, a, p):
         # INDEX's postcondition for an inside position: the element at p
         return a[p - 1] == x
+
